@@ -77,10 +77,15 @@ def _operands_of(rv):
     return []
 
 
+import os as _os
+_COV = bool(_os.environ.get("RM_COVERAGE"))
+if _COV: import facts as _facts
+
 class Body:
     def __init__(self, f):
         self.f = f
         self.key = f["key"]
+        if _COV: _facts.BODIES.add(self.key)
         self.blocks = f["blocks"]
         self.n = len(self.blocks)
         self.locals = f["locals"]
